@@ -204,7 +204,11 @@ func (p PowerBasis) WriteTo(w io.Writer) (n int64, err error) {
 
 		var inc int64
 
-		/* #nosec G115 -- Basis cannot be negative if receiver is valid */
+		if p.Basis < 0 || p.Basis > 255 {
+			return 0, fmt.Errorf("cannot WriteTo: Basis %d does not fit in a byte", p.Basis)
+		}
+
+		/* #nosec G115 -- range checked above */
 		if inc, err = buffer.WriteUint8(w, uint8(p.Basis)); err != nil {
 			return n + inc, err
 		}
